@@ -507,6 +507,7 @@ def run_multi(cfg, acc):
     for empty in ('', ' ', [], (), set()):
         o = check_norm(cls, empty, [], acc, cfg, kind + '-empty')
         if o is not None:
+            check_roundtrip(cls, o, acc, cfg, kind + '-empty')
             check_membership(kind, o, [], PROBES[kind]([[vals[0], vals[1]]]), acc, cfg)
     nota = {repr(v): pick_notations(kind, v) for v in vals}
     combos = list(itertools.combinations(range(len(ranges)), 2))
